@@ -110,3 +110,11 @@ class HiddenState(list):
 
 def module_function(x):
     return x
+
+
+class MyBytes(bytes):
+    pass
+
+
+class MyByteArray(bytearray):
+    pass
